@@ -2,6 +2,7 @@ package main
 
 import (
 	"fmt"
+	"go/types"
 	"strings"
 
 	"golang.org/x/tools/go/ssa"
@@ -9,10 +10,10 @@ import (
 
 func init() {
 	register(&ruleSet{
-		id:         "C07",
-		title:      "control flow executes statements in the documented order, at any nesting",
-		run:        runC07,
-		decided:    "which sentinel each construct consumes and where control goes on each edge, at any nesting (nesting is handled by the recursion of evalStatement, whose summary is used at every level): each loop's body evaluation consumes exactly break and continue and lets every other outcome through; after a break the body is never evaluated again, after a continue / normal completion the loop goes on; the for post-expression is evaluated on every path from a completed or continued body to the next condition test and on no path from a break, the initialiser once before the loop with its error propagated; if / else bodies are gated by the condition's truthiness and their outcome returned unchanged; return stores the return slot on every path before raising and the call consumes it, reading the slot only then; for-in binds element / index (arrays), key / value in sorted key order (objects), character / byte offset (strings) before each body evaluation; every statement and expression node type the parser can build has an arm in the evaluator." +
+		id:    "C07",
+		title: "control flow executes statements in the documented order, at any nesting",
+		run:   runC07,
+		decided: "which sentinel each construct consumes and where control goes on each edge, at any nesting (nesting is handled by the recursion of evalStatement, whose summary is used at every level): each loop's body evaluation consumes exactly break and continue and lets every other outcome through; after a break the body is never evaluated again, after a continue / normal completion the loop goes on; the for post-expression is evaluated on every path from a completed or continued body to the next condition test and on no path from a break, the initialiser once before the loop with its error propagated; if / else bodies are gated by the condition's truthiness and their outcome returned unchanged; return stores the return slot on every path before raising and the call consumes it, reading the slot only then; for-in binds element / index (arrays), key / value in sorted key order (objects), character / byte offset (strings) before each body evaluation; every statement and expression node type the parser can build has an arm in the evaluator." +
 			" for-in over a string binds Go's own range over the string (byte offsets); no err.Error() is applied to a value that may be a control-flow signal (signals keep their identity up to their consumer); every test against errNext / errExit sits in a rule driver." +
 			" The fuzzer's iteration cap applies only under Evaluator.fuzzing.",
 		notDecided: "the parser's dangling-else attachment (inherent in the recursive descent: an else is consumed by the innermost if still open; not separately checked); element order of Go's range over slices / strings (language semantics).",
@@ -21,12 +22,29 @@ func init() {
 
 func runC07(c *Ctx) {
 	p := c.P
-	ek := EKOf(p)
 	es := p.LangFunc("(*Evaluator).evalStatement")
 	if es == nil {
 		c.undecided("R1", "evalStatement", "", "anchor not found")
 		return
 	}
+	c07LoopConsumption(c, es)
+
+	c07ForOrder(c, es)
+	c07IfElse(c, es)
+	c07Return(c, es)
+	sentinelIdentity(c, "R8")
+	fuzzLimitGuarded(c, "R9")
+	c.shared("R7", "C02/R3", "next and exit are consumed exactly by the rule drivers: every test against errNext / errExit sits in a driver, so a `next` leaves the current rule list and an `exit` the run from any nesting of statements", nil, c02R3)
+	mapRangeOrder(c, "R5")
+	c07ForIn(c, es)
+	c07Dispatch(c)
+	returnValuePresence(c, "R10")
+}
+
+// R1 loop consumption
+func c07LoopConsumption(c *Ctx, es *ssa.Function) {
+	p := c.P
+	ek := EKOf(p)
 	brk, cont := ek.Sentinel("errBreak"), ek.Sentinel("errContinue")
 	gBreak := ek.SentinelGlobal("errBreak")
 	c.note("R1 loop-consumption: for the body evaluation call of while / for / for-in (array, object, string): swallowed kinds = {errBreak, errContinue} exactly (swallow analysis), every other kind is returned unchanged; on the edge where the body's error == errBreak the body call is not reachable again; on the complementary non-returning edge it is.")
@@ -76,15 +94,60 @@ func runC07(c *Ctx) {
 		c.undecided("R1", "loop-bodies", p.Pos(es.Pos()), fmt.Sprintf("%d loop body evaluations found, 5 confirmed by hand (while, for, for-in x3)", nLoops))
 	}
 
-	c07ForOrder(c, es)
-	c07IfElse(c, es)
-	c07Return(c, es)
-	sentinelIdentity(c, "R8")
-	fuzzLimitGuarded(c, "R9")
-	c.shared("R7", "C02/R3", "next and exit are consumed exactly by the rule drivers: every test against errNext / errExit sits in a driver, so a `next` leaves the current rule list and an `exit` the run from any nesting of statements", nil, c02R3)
-	mapRangeOrder(c, "R5")
-	c07ForIn(c, es)
-	c07Dispatch(c)
+}
+
+// returnValuePresence: whether `return` carries a value is decided by the statement-end test, not by
+// what the next token looks like.
+func returnValuePresence(c *Ctx, rule string) {
+	p := c.P
+	c.note("%s return-value-presence: in the parser, a StatementReturn with a value is built only where atStatementEnd() answered false (without error), and one without a value only where it answered true: `return` at the end of a line returns null and the next line is the next statement.", rule)
+	ase := p.LangFunc("(*Parser).atStatementEnd")
+	if ase == nil {
+		c.undecided(rule, "atStatementEnd", "", "anchor not found")
+		return
+	}
+	n := 0
+	for _, fn := range p.Funcs {
+		if !p.InLang(fn) || p.inTestFile(fn) {
+			continue
+		}
+		allInstrs(fn, func(in ssa.Instruction) {
+			a, ok := in.(*ssa.Alloc)
+			if !ok || !isLangNamed(a.Type().(*types.Pointer).Elem(), "StatementReturn") {
+				return
+			}
+			// the value stored into the node's expression field
+			var val ssa.Value
+			var at ssa.Instruction = a
+			for _, r := range referrersOf(a) {
+				if fa, ok := r.(*ssa.FieldAddr); ok {
+					for _, rr := range referrersOf(fa) {
+						if st, ok := rr.(*ssa.Store); ok && st.Addr == ssa.Value(fa) {
+							val, at = st.Val, st
+						}
+					}
+				}
+			}
+			n++
+			withValue := val != nil && !isNilConst(val)
+			// the answer of the statement-end test known at this point
+			known, ended := false, false
+			for f := range FactsOf(fn).At(at.Block()) {
+				ex, ok := f.cond.(*ssa.Extract)
+				if !ok || ex.Index != 0 {
+					continue
+				}
+				if cv, ok := ex.Tuple.(*ssa.Call); ok && cv.Call.StaticCallee() == ase {
+					known, ended = true, f.truth
+				}
+			}
+			key := fmt.Sprintf("return-node #%d in %s (%s)", n, shortName(fn), map[bool]string{true: "with value", false: "bare"}[withValue])
+			c.check(known && ended == !withValue, rule, key, p.InstrPos(at), "decided by atStatementEnd()", "a return statement "+map[bool]string{true: "with a value", false: "without a value"}[withValue]+" is built where the statement-end test did not answer "+map[bool]string{true: "false", false: "true"}[withValue]+": a bare `return` at the end of a line takes the next line as its value (or a value on the same line is dropped)")
+		})
+	}
+	if n < 2 {
+		c.undecided(rule, "return-nodes", "", fmt.Sprintf("%d StatementReturn nodes built in the parser, 2 expected", n))
+	}
 }
 
 func findCall(fn *ssa.Function, callee, arg string) []*ssa.Call {
@@ -301,6 +364,22 @@ func c07ForIn(c *Ctx, es *ssa.Function) {
 			which = "second"
 		}
 		val := strings.ReplaceAll(p.RenderShort(st.Val), V, "IT")
+		// the binding is made in every iteration: inside the loop nothing but the presence of the
+		// second variable decides whether the store happens
+		for _, l := range rangeLoops(es, func(ssa.Value) bool { return true }) {
+			if !l.Body.Dominates(st.Block()) {
+				continue
+			}
+			extra := extraGuardsBetween(p, es, l.Body, st.Block())
+			var bad []string
+			for _, g := range extra {
+				if which == "second" && strings.HasSuffix(g, " != nil") && strings.Contains(g, "IndexIdent") {
+					continue
+				}
+				bad = append(bad, g)
+			}
+			c.check(len(bad) == 0, "R7", "for-in binding-every-iteration "+which+" := "+val, p.InstrPos(st), "bound in every iteration", "the loop variable is bound only under {"+strings.Join(bad, " && ")+"}: in the other iterations it keeps whatever the body or an earlier iteration left in it")
+		}
 		for _, t := range ms.At(st.Block()) {
 			if got[t] == nil {
 				got[t] = map[string]bool{}
